@@ -80,10 +80,47 @@ def _configs(R):
         ("CGNE[rank=2]", lambda: S.CGNEQSolver(max_iter=4, tol=1e-12, preconditioner_rank=2), "compute", "pinv_tall"),
         ("CGNE[rank=3,seed=7]", lambda: S.CGNEQSolver(max_iter=3, tol=1e-12, preconditioner_rank=3, seed=7), "compute", "pinv_tall"),
         ("DeepLinear", lambda: S.DeepLinearNewtonSchulz(max_iter=2, tol=1e-6), "compute", "deep"),
+        # non-default options TOGETHER WITH structured problems of realistic block sizes
+        ("RSP[block=10,spd]:structured", lambda: S.RandomizedSketchProjectPseudoinverse(block_size=10, max_iter=6, tol=1e-9, column_solver="spd"), "compute", "pinv_tall_structured"),
+        ("RSP[block=16,spd]:structured", lambda: S.RandomizedSketchProjectPseudoinverse(block_size=16, max_iter=6, tol=1e-9, column_solver="spd"), "compute", "pinv_tall_structured"),
+        ("RSP[block=9,qr]:structured", lambda: S.RandomizedSketchProjectPseudoinverse(block_size=9, max_iter=6, tol=1e-9), "compute", "pinv_tall_structured"),
+        ("Hybrid[r=16,spd]:structured", lambda: S.HybridRSPNewtonSchulz(r=16, p=2, T=2, max_iter=4, tol=1e-9, column_solver="spd"), "compute", "pinv_tall_structured"),
+        ("CGNE[rank=4]:structured", lambda: S.CGNEQSolver(max_iter=6, tol=1e-12, preconditioner_rank=4), "compute", "pinv_tall_structured"),
+        ("NewtonSchulz[gamma=1]:structured", lambda: S.NewtonSchulzPseudoinverse(gamma=1.0, max_iter=5, tol=1e-9), "compute", "pinv_tall_structured"),
+        ("QGMRES[left_lu]:structured", lambda: S.QGMRESSolver(tol=1e-10, preconditioner="left_lu"), "solve", "linsys_structured"),
+        ("QGMRES[none]:structured", lambda: S.QGMRESSolver(tol=1e-10), "solve", "linsys_structured"),
     ]
 
 
 def _pool_for(kind, npool):
+    if kind == "pinv_tall_structured":
+        # tall / square full-column-rank problems with exact structure and more than 8 columns (blocks of 10..16 columns are then real blocks):
+        # an exactly zero row, a zero last row, a diagonal matrix, an upper-trapezoidal one, next to a generic problem of the same size
+        rng = np.random.default_rng(31337)
+        P = []
+        A = refq.randq(rng, 12, 10); A[1, :] = np.quaternion(0, 0, 0, 0); P.append((A,))
+        A = refq.randq(rng, 20, 16); A[3, :] = np.quaternion(0, 0, 0, 0); P.append((A,))
+        P.append((refq.randq(rng, 12, 10),))
+        A = refq.randq(rng, 17, 16); A[16, :] = np.quaternion(0, 0, 0, 0); P.append((A,))
+        P.append((refq.diagq(np.linspace(3.0, 1.0, 9), 11, 9),))
+        return P[:npool]
+    if kind == "linsys_structured":
+        # triangular / diagonal / identity-plus-one-entry systems and right-hand sides with exact zeros (unit vectors, leading zeros)
+        rng = np.random.default_rng(4711)
+        P = []
+        n = 6
+        c = refq.fa(refq.randq(rng, n, n)).copy() * np.triu(np.ones((n, n)))[..., None]
+        A = refq.qa(c) + 3.0 * refq.eye(n)
+        e = refq.zeros(n, 1); e[n - 1, 0] = np.quaternion(1, 0, 0, 0)
+        P.append((A, e))
+        A2 = refq.randq(rng, 5, 5) + 3.0 * refq.eye(5)
+        b2 = refq.randq(rng, 5, 1); b2[0, 0] = np.quaternion(0, 0, 0, 0); b2[1, 0] = np.quaternion(0, 0, 0, 0)
+        P.append((A2, b2))
+        P.append((refq.diagq(np.linspace(2.0, 1.0, 4), 4, 4) * np.quaternion(0.6, 0.0, 0.8, 0.0), refq.randq(rng, 4, 1)))
+        e1 = refq.zeros(n, 1); e1[0, 0] = np.quaternion(0, 1, 0, 0)
+        P.append((refq.qa(np.transpose(c, (1, 0, 2)).copy()) + 3.0 * refq.eye(n), e1))
+        P.append((A2.copy(), refq.zeros(5, 1)))
+        return P[:npool]
     if kind == "pinv_any_fullrank":
         rng = np.random.default_rng(777)
         return [(refq.randq(rng, m, n),) for (m, n) in [(3, 2), (2, 4), (3, 2), (5, 3), (4, 4)][:npool]]
@@ -138,7 +175,7 @@ def _state_digest(obj):
 def cases(tier, seed):
     out = []
     npool = 4 if tier == "quick" else 5
-    ncfg = 15
+    ncfg = 23
     for ci in range(ncfg):
         seqs = list(itertools.product(range(npool), repeat=3))
         out.append({"kind": "history", "cls": "history", "cfg": ci, "npool": npool, "seqs": [list(s) for s in seqs], "seed": seed,
@@ -205,9 +242,29 @@ def _verbose(spec, ctx, R):
                   detail={"verbose_false": outs[0], "verbose_true": outs[1], "numpy_bool": outs[2], "int_1": outs[3], "size": spec.get("size")})
 
 
+_POISON = [0]
+
+
+def poison_heap():
+    """Fill freshly freed heap blocks of the sizes the routines work with by a value that alternates from call to call (1e300, -7.25, NaN): a routine
+    that returns memory it never wrote (np.empty handed out as a result) then gives DIFFERENT bits on repeated calls instead of the zeros a
+    fresh process happens to see."""
+    _POISON[0] += 1
+    val = (1e300, -7.25, float("nan"))[_POISON[0] % 3]
+    keep = []
+    for i in range(1, 21):
+        for j in range(i, 21):
+            for w in (1, 4):
+                a = np.empty(i * j * w)
+                a.fill(val)
+                keep.append(a)
+    del keep
+
+
 def _call(obj, method, prob, S):
     args = [copy.deepcopy(a) for a in prob]
     before = [battery.arg_digest(a) for a in args]
+    poison_heap()
     np.random.seed(S)
     res = getattr(obj, method)(*args)
     return res, [battery.arg_digest(a) for a in args] == before
